@@ -63,6 +63,9 @@ STRENGTHENED = {
  'C15-r8-m1': 'histories writing under the non-default path configuration (creation with data, update, set), reads under both; the oracle tracks created / written per configuration',
  'C16-r8-m3': 'get_one against the first record of get(); plain Sids that do not exist as searches',
  'C18-r8-m3': 'the first publish of a task: lookups while the task folder does not exist, then create(get_new) three times, lookups again',
+ 'C05-r9-m3': 'free values holding a backslash (an ordinary character of a posix path component)',
+ 'C09-r9-m1': "the same '>' search answered with as_sid=True: the same Sids in the same order as with as_sid=False",
+ 'C12-r9-m2': "caught by C09 as written (FindInAll.find_one against find on '>' searches over real trees)",
  'C20-r3-m2': 'NOT CAUGHT: needs overlapping key_patterns groups (precedence between them is not a documented convention); see DESIGN.md I.7',
 }
 res = {}
@@ -71,7 +74,7 @@ for line in open(os.path.join(V, 'notes', 'seed_sweep_results.txt')):
         k, v = line.split(' | ', 1)
         res[k.strip()] = v.strip()
 for d in sorted(os.listdir(os.path.join(V, 'seeded'))):
-    if not any(t in d for t in ('-r2-', '-r3-', '-r4-', '-r5-', '-r6-', '-r7-', '-r8-')):
+    if not any(t in d for t in ('-r2-', '-r3-', '-r4-', '-r5-', '-r6-', '-r7-', '-r8-', '-r9-')):
         continue
     dd = os.path.join(V, 'seeded', d)
     note = open(os.path.join(dd, 'note.txt')).read().strip() if os.path.exists(os.path.join(dd, 'note.txt')) else ''
@@ -80,7 +83,7 @@ for d in sorted(os.listdir(os.path.join(V, 'seeded'))):
     r = res.get(d, 'not run')
     caught = 'VIOLATION' in r
     meta = {
-        'property': prop, 'round': 2 if '-r2-' in d else (3 if '-r3-' in d else (4 if '-r4-' in d else (5 if '-r5-' in d else (6 if '-r6-' in d else (7 if '-r7-' in d else 8))))),
+        'property': prop, 'round': 2 if '-r2-' in d else (3 if '-r3-' in d else (4 if '-r4-' in d else (5 if '-r5-' in d else (6 if '-r6-' in d else (7 if '-r7-' in d else (8 if '-r8-' in d else 9)))))),
         'breaks': note,
         'needs_to_manifest': note.splitlines()[-1] if note else '',
         'confirmed': 'patch applied in a scratch worktree: repository test suite unchanged (46 passed, 1 known failure); demo.py exits 1 with the patch and 0 without',
